@@ -9,6 +9,7 @@ import (
 	"fmt"
 	"io"
 	"net/http"
+	"os"
 	"net/http/httptest"
 	"strings"
 	"sync"
@@ -359,6 +360,9 @@ func (h *c16Harness) router(a map[string]any) *Router {
 	return h.in
 }
 
+// VERIF_BODYMETA=1: ordinary events carry explicit false probe / stressed markers in their body
+var c16BodyMeta = os.Getenv("VERIF_BODYMETA") != ""
+
 func (h *c16Harness) event(a map[string]any, trace string, probe bool) *types.Event {
 	data := map[string]any{"eid": verifkit.Int(a, "id"), "payload": "client-value"}
 	if trace != "" {
@@ -366,6 +370,11 @@ func (h *c16Harness) event(a map[string]any, trace string, probe bool) *types.Ev
 	}
 	if probe {
 		data["meta.refinery.probe"] = true
+	} else if c16BodyMeta {
+		// the client's body spells the markers out with their zero values (C16: what this node adds must still reach
+		// the peer / Honeycomb as this node set it)
+		data["meta.refinery.probe"] = false
+		data["meta.stressed"] = false
 	}
 	return &types.Event{Context: context.Background(), APIHost: h.hny.srv.URL, APIKey: c16Key, Dataset: c16Dataset,
 		SampleRate: uint(verifkit.Int(a, "crate")), Timestamp: c16Stamp, Data: types.NewPayload(h.conf, data)}
